@@ -32,6 +32,10 @@ type Script struct {
 	PosVal bool `json:"posval,omitempty"`
 	// RecMeta journals the metadata keys the exchange handler sees as "meta:k1,k2".
 	RecMeta bool `json:"recmeta,omitempty"`
+	// Dual makes prod/exch methods return a state whose Go type implements BOTH ProducerState
+	// and ExchangeState (one state struct shared by a producer and an exchange method): which
+	// loop runs is decided by the registration, never by what the state happens to implement.
+	Dual bool `json:"dual,omitempty"`
 }
 
 // Encode renders the script parameter.
@@ -322,7 +326,34 @@ func (s *ExchState2) Exchange(_ context.Context, in arrow.RecordBatch, out *vgir
 	return s.turn(o, a+2000, out)
 }
 
+// DualState implements both stream interfaces and behaves as the scripted producer or
+// exchange state, whichever method it was returned from.
+type DualState struct{ Core }
+
+// Produce implements vgirpc.ProducerState.
+func (s *DualState) Produce(ctx context.Context, out *vgirpc.OutputCollector, cc *vgirpc.CallContext) error {
+	p := &ProdState{Core: s.Core}
+	err := p.Produce(ctx, out, cc)
+	s.Core = p.Core
+	return err
+}
+
+// Exchange implements vgirpc.ExchangeState.
+func (s *DualState) Exchange(ctx context.Context, in arrow.RecordBatch, out *vgirpc.OutputCollector, cc *vgirpc.CallContext) error {
+	e := &ExchState{Core: s.Core}
+	err := e.Exchange(ctx, in, out, cc)
+	s.Core = e.Core
+	return err
+}
+
+// OnCancel implements vgirpc.StreamCanceller.
+func (s *DualState) OnCancel(context.Context, *vgirpc.CallContext) error {
+	Note(s.Script.SID, "cancel")
+	return nil
+}
+
 func init() {
+	vgirpc.RegisterStateType(&DualState{})
 	vgirpc.RegisterStateType(&ProdState{})
 	vgirpc.RegisterStateType(&ExchState{})
 	vgirpc.RegisterStateType(&ExchState2{})
@@ -348,8 +379,14 @@ func streamInit(kind string) func(context.Context, *vgirpc.CallContext, SParams)
 		switch kind {
 		case "prod":
 			res.State = &ProdState{Core{Script: sc}}
+			if sc.Dual {
+				res.State = &DualState{Core{Script: sc}}
+			}
 		case "exch":
 			res.State = &ExchState{Core{Script: sc}}
+			if sc.Dual {
+				res.State = &DualState{Core{Script: sc}}
+			}
 			res.InputSchema = InSchema
 		case "exch2":
 			res.State = &ExchState2{Core: Core{Script: sc}, Other: "o"}
